@@ -17,3 +17,14 @@ bool smells_like_watford(DFS::DataAccess& access, const DFS::SectorBuffer& buf1)
 }
 }
 bool use(DFS::DataAccess& a, const DFS::SectorBuffer& b) { return smells_like_watford(a, b); }
+
+// R-C13-5: the two-sided flag consulted for every format but two
+namespace DFS { enum class Format { HDFS, DFS, WDFS, OpusDDOS }; }
+bool single_sided_filesystem(DFS::Format fmt, const unsigned char *sec1)
+{
+  if (fmt == DFS::Format::DFS || fmt == DFS::Format::OpusDDOS)
+    return true;
+  if (sec1[6] & 4)
+    return false;		// BAD: also reached for Watford discs
+  return true;
+}
